@@ -1,5 +1,6 @@
 mod c03;
 mod c04;
+mod c05;
 mod c07;
 mod c11;
 mod c14;
@@ -34,6 +35,7 @@ fn main() {
             match prop {
                 "C03" => c03::generate(&mut s, tier, &mut rng),
                 "C04" => c04::generate(&mut s, tier, &mut rng),
+                "C05" => c05::generate(&mut s, tier, &mut rng),
                 "C07" => c07::generate(&mut s, tier, &mut rng),
                 "C11" => c11::generate(&mut s, tier, &mut rng),
                 "C14" => c14::generate(&mut s, tier, &mut rng),
